@@ -422,3 +422,46 @@ def standard_compare(check_items=True, check_rng=False):
                 return ("rng-count", f"PRNG advanced {n} times, specification says {rec['irng']}")
         return None
     return cmp
+
+
+AS_BUILT = ("LateEnv", "AtomicGroupRetry", "StaleLookup")
+
+
+def deviation_predictions(rep, family, devsets, **over):
+    """For each deviation set (tuple of names) run the model with it and index
+    its predictions by document.  Used to recognise a listed known finding
+    semantically: the implementation does what the specification predicts
+    for that deviation, and not what the design predicts."""
+    out = {}
+    for ds in devsets:
+        r = model_check_family(rep, family, "quick", deviations=ds, export=True, **over)
+        out["+".join(ds)] = {doc_key(x): x for x in r.replay}
+        rep.notes.setdefault("deviation_runs", []).append(
+            {"family": family, "deviations": list(ds), "documents": len(r.replay), "states": r.distinct})
+    return out
+
+
+def family_check(rep, family, tier, seed, compare, over_quick, over_thorough, devsets=(), sample_quick=2500,
+                 sample_thorough=40000, tag=None, trace_budget=None, need_outcomes=()):
+    rnd = random.Random(seed)
+    over = over_thorough if tier == "thorough" else over_quick
+    r = model_check_family(rep, family, tier, **over)
+    rep.bounds[family] = {k: (sorted(v) if isinstance(v, set) else v) for k, v in constants(family, **over).items()}
+    classes = {}
+    for x in r.replay:
+        key = x["res"] + ("/retried" if x["passes"] else "")
+        classes[key] = classes.get(key, 0) + 1
+    rep.notes.setdefault("outcome_classes", {})[family] = classes
+    for need in need_outcomes:
+        if need not in classes:
+            raise vlib.ToolError(f"family {family}: outcome class {need} never reached (vacuous): {classes}")
+    recs = r.replay
+    limit = sample_thorough if tier == "thorough" else sample_quick
+    exhaustive = len(recs) <= limit
+    if not exhaustive:
+        recs = rnd.sample(recs, limit)
+    rep.notes.setdefault("replayed", {})[family] = {"exported": len(r.replay), "replayed": len(recs), "all": exhaustive}
+    preds = deviation_predictions(rep, family, devsets, **over) if devsets else None
+    replay_records(rep, recs, rnd.random(), tier, compare, variants=2, tag=tag or ("f" + family),
+                   trace_budget=trace_budget or (80000 if tier == "thorough" else 25000), deviation_preds=preds)
+    return r
